@@ -223,25 +223,32 @@ C08_ClaimExact(x) ==
        /\ -Delta(x, "m_node") <= blockPart \div 1000
        /\ -Delta(x, "m_market") <= workPart
 
-\* C09: a model changes only through a request signed by its owner / a read-write grantee
-Allowed(m, ev, kinds) ==
+\* C09: a model changes only through a request signed by its owner / a read-write grantee.
+\* Who is a grantee is NOT read from the model's own rw list but from the ghost: the list of the owner's last ACCEPTED
+\* permission update (gh.grants) - a revocation that was accepted but not applied must not leave the old grantee in power.
+GrantOf(g, d) == IF Has(g.grants, "data", d) THEN Get(g.grants, "data", d).rw ELSE <<>>
+Allowed(m, ev, kinds, g) ==
     /\ ev.sigmode = "ok" /\ ev.signer = ev.owner
-    /\ IF "rw" \in kinds THEN ev.signer = m.owner \/ InSeq(ev.signer, m.rw) ELSE ev.signer = m.owner
+    /\ IF "rw" \in kinds THEN ev.signer = m.owner \/ InSeq(ev.signer, GrantOf(g, m.data)) ELSE ev.signer = m.owner
+\* an accepted permission update takes effect exactly as signed
+C09_PermissionApplied(x) ==
+    (Kind(x) = "Permission" /\ Ok(x)) =>
+        HasMeta(x.post, x.ev.data) /\ MetaOf(x.post, x.ev.data).rw = x.ev.rw /\ MetaOf(x.post, x.ev.data).ro = x.ev.ro
 MetaChanged(x, d) ==
     \/ HasMeta(x.pre, d) # HasMeta(x.post, d)
     \/ (HasMeta(x.pre, d) /\ MetaOf(x.pre, d) # MetaOf(x.post, d))
 AllData(x) == {x.pre.metas[i].data : i \in 1..Len(x.pre.metas)} \cup {x.post.metas[i].data : i \in 1..Len(x.post.metas)}
 OrderData(s, id) == IF HasOrder(s, id) THEN {OrderOf(s, id).data} ELSE {}
 C09_app(x) == IsTx(x) /\ \E d \in AllData(x) : MetaChanged(x, d)
-C09_ModelChangeAuthorised(x) ==
+C09_ModelChangeAuthorised(x, g) ==
     \A d \in AllData(x) : MetaChanged(x, d) =>
         CASE Kind(x) = "Store" ->
                 /\ d = x.ev.data
-                /\ IF HasMeta(x.pre, d) THEN Allowed(MetaOf(x.pre, d), x.ev, {"rw"})
+                /\ IF HasMeta(x.pre, d) THEN Allowed(MetaOf(x.pre, d), x.ev, {"rw"}, g)
                    ELSE x.ev.sigmode = "ok" /\ x.ev.signer = x.ev.owner /\ MetaOf(x.post, d).owner = x.ev.signer
-          [] Kind(x) = "Terminate"  -> d = x.ev.data /\ Allowed(MetaOf(x.pre, d), x.ev, {"rw"})
-          [] Kind(x) = "Renew"      -> InSeq(d, x.ev.datas) /\ HasMeta(x.pre, d) /\ Allowed(MetaOf(x.pre, d), x.ev, {})
-          [] Kind(x) = "Permission" -> d = x.ev.data /\ Allowed(MetaOf(x.pre, d), x.ev, {})
+          [] Kind(x) = "Terminate"  -> d = x.ev.data /\ Allowed(MetaOf(x.pre, d), x.ev, {"rw"}, g)
+          [] Kind(x) = "Renew"      -> InSeq(d, x.ev.datas) /\ HasMeta(x.pre, d) /\ Allowed(MetaOf(x.pre, d), x.ev, {}, g)
+          [] Kind(x) = "Permission" -> d = x.ev.data /\ Allowed(MetaOf(x.pre, d), x.ev, {}, g)
           [] Kind(x) \in {"Complete", "Cancel"} -> d \in OrderData(x.pre, x.ev.order)
           [] OTHER -> FALSE
 
